@@ -1,15 +1,12 @@
 #!/bin/sh
-# tools/all_seeds.sh -- apply every kept seeded change in turn, run its property's check, report the exit code
-# (1 = detected).  /repo is restored after each.
+# tools/all_seeds.sh [jobs] -- regression of the checks themselves: every kept seeded change is applied to a scratch
+# worktree (never to /repo) and its property's check is run against that tree; exit 1 = detected.
+# Output: seeded/LAST_REGRESSION.txt
+J="${1:-3}"
 cd /verif || exit 9
-for d in seeded/*/; do
-  s=$(basename "$d")
-  p=$(python3 -c "import json;print(json.load(open('/verif/seeded/$s/meta.json'))['property'])")
-  if git -C /repo apply --check "/verif/seeded/$s/patch.diff" 2>/dev/null; then
-    r=$(sh tools/try_seed.sh "/verif/seeded/$s/patch.diff" "$p" 2>&1 | grep -E "^check exit")
-  else
-    r="patch no longer applies to HEAD"
-  fi
-  echo "$s $p $r"
-done
-git -C /repo status --short
+OUT=/verif/.work/all_seeds_out.$$
+mkdir -p /verif/.work
+ls seeded | grep -E "^C[0-9]+_[0-9]+$" | xargs -P "$J" -I{} sh tools/one_seed.sh {} | sort > "$OUT"
+{ echo "# $(date -u +%F) HEAD $(git -C /repo rev-parse --short HEAD): seed, property, exit code of ./check on the tree with the seed applied (1 = detected)"; cat "$OUT"; } > seeded/LAST_REGRESSION.txt
+rm -f "$OUT"
+cat seeded/LAST_REGRESSION.txt
